@@ -46,9 +46,16 @@ def _keyclass(k):
   return 'str'
 
 
+_CLASS_PRIORITY = ['int<0', 'str-special', 'str-digits', 'str-unicode', 'str-dollar', 'int', 'str']
+
+
 def _seqclass(keys):
-  cl = sorted(set(_keyclass(k) for k in keys))
-  return '+'.join(cl) if cl else 'root'
+  """Input class of a key sequence: its most unusual kind of key (one id per defect)."""
+  cl = set(_keyclass(k) for k in keys)
+  for c in _CLASS_PRIORITY:
+    if c in cl:
+      return c
+  return 'root'
 
 
 class _Chk:
@@ -105,7 +112,7 @@ def drv_roundtrip(tier, seed):
                        'over a sub-alphabet (len 4 thorough), seeded random len 3..7')
   chk = _Chk(rec)
   seen = {}
-  for ks in _sequences(tier, seed):
+  def one(ks):
     ks = list(ks)
     cls = _seqclass(ks)
     src = _kp_src(ks)
@@ -116,7 +123,7 @@ def drv_roundtrip(tier, seed):
     r = _out(lambda: str(p))
     if not chk(f'format.total/{cls}', tuple(ks), r[0] == 'ok' and isinstance(r[1], str), lambda: f'{r}',
                lambda: f'import pyglove as pg; str({src})'):
-      continue
+      return
     s = r[1]
     chk(f'format.str-repr-path-agree/{cls}', tuple(ks), s == repr(p) == p.path == p.format() == p.path_str(),
         lambda: f'{s!r} {repr(p)!r} {p.path!r}', lambda: f'import pyglove as pg; p = {src}; assert str(p) == repr(p) == p.path == p.path_str()')
@@ -164,6 +171,13 @@ def drv_roundtrip(tier, seed):
     kk.append('zz')
     chk(f'keys.is-copy/{cls}', tuple(ks), len(p.keys) == len(ks), 'mutating .keys changed the path',
         lambda: f'import pyglove as pg; p = {src}; p.keys.append(1); assert len(p) == {len(ks)}')
+
+  for ks in _sequences(tier, seed):
+    try:
+      one(ks)
+    except Exception as e:  # pylint: disable=broad-except
+      rec.case(f'unexpected-exception/{_seqclass(ks)}', tuple(ks), False, f'{type(e).__name__}: {e}',
+               f'import pyglove as pg; p = {_kp_src(ks)}; assert pg.KeyPath.parse(str(p)).keys == {list(ks)!r}')
 
   # malformed strings are rejected; well-formed documented strings parse as documented.
   for bad in ['a]', ']', 'a[', '[', 'a[0', 'a]0[', '[[0]', 'a.b]', '[a]]', 'a[[b]']:
@@ -504,7 +518,7 @@ def drv_query(tier, seed):
   chk = _Chk(rec)
   ns = {'__name__': 'c10ns'}
   exec(PRE, ns)  # pylint: disable=exec-used
-  for expr, _ in vals:
+  def one(expr):
     root = eval(expr, ns)  # pylint: disable=eval-used
     model = _model_eval(expr)
     for path, mnode, _ in _mwalk(model):
@@ -535,10 +549,10 @@ def drv_query(tier, seed):
           present = k in ('x', 'y')
         else:
           if isinstance(k, int) and isinstance(mnode, (str, tuple)):
-            continue   # indexing into a str/tuple leaf: not specified.
+            continue # indexing into a str/tuple leaf: not specified.
           present = False
         if present and not (isinstance(mnode, list) and k < 0):
-          continue     # a real child: covered by the node checks.
+          continue   # a real child: covered by the node checks.
         q = KP(lp + [k])
         w = PRE + f'root = {expr}\np = pg.KeyPath({lp + [k]!r})\n'
         kc = 'int<0' if isinstance(k, int) and k < 0 else type(k).__name__
@@ -553,6 +567,13 @@ def drv_query(tier, seed):
             g1 == ('ok', False) and g2[0] == 'ok' and g2[1] is _SENTINEL and g3 == ('exc', 'KeyError'),
             lambda: f'exists -> {g1}; get(default) -> {g2 if g2[0] == "exc" else ("default" if g2[1] is _SENTINEL else g2[1])}; query -> {g3 if g3[0] == "exc" else ("ok", g3[1])} (want False / default / KeyError)',
             lambda: w + 'assert p.exists(root) is False\nassert p.get(root, "dflt") == "dflt"\ntry:\n  p.query(root)\n  raise AssertionError("no KeyError")\nexcept KeyError:\n  pass')
+
+  for expr, _ in vals:
+    try:
+      one(expr)
+    except Exception as e:  # pylint: disable=broad-except
+      rec.case('unexpected-exception', expr, False, f'{type(e).__name__}: {e}', PRE + f'root = {expr}\nraise AssertionError({str(e)!r})')
+
   # plain dicts keyed by ints (a dict is addressed by its keys, whatever their type).
   for expr, path in [("{5: 'x'}", (5,)), ("{0: 'x', 1: 'y'}", (1,)), ("{'a': {2: 'x'}}", ('a', 2)), ("{-1: 'x'}", (-1,)), ("{1: 'x'}", (1,))]:
     root = eval(expr)  # pylint: disable=eval-used
@@ -576,7 +597,7 @@ def drv_traverse(tier, seed):
   exec(PRE, ns)  # pylint: disable=exec-used
   ENTER, STOP, CONT = pg.TraverseAction.ENTER, pg.TraverseAction.STOP, pg.TraverseAction.CONTINUE
   wtrav = ('log = []\nret = pg.traverse(root, lambda k, v, p: (log.append(k.keys), pg.TraverseAction.ENTER)[1])\n')
-  for expr, flavour in vals:
+  def one(expr, flavour):
     root = eval(expr, ns)  # pylint: disable=eval-used
     model = _model_eval(expr)
     mpre = list(_mwalk(model))
@@ -596,7 +617,7 @@ def drv_traverse(tier, seed):
     g = _out(pg.traverse, root, f_pre, f_post)
     key = expr
     if not chk(f'pg.traverse.completes/{flavour}', key, g == ('ok', True), lambda: f'{g}', lambda: w0 + wtrav + 'assert ret is True'):
-      continue
+      return
     chk(f'pg.traverse.preorder-paths/{flavour}', key, [_tk(k.keys) for k, _, _ in pre] == [_tk(p) for p, _, _ in mpre],
         lambda: f'visited {[k.keys for k, _, _ in pre]!r}, want {[list(p) for p, _, _ in mpre]!r}',
         lambda: w0 + wtrav + f'assert log == {[list(p) for p, _, _ in mpre]!r}')
@@ -608,8 +629,8 @@ def drv_traverse(tier, seed):
       want = _lookup(root, mp)
       ok_nodes = ok_nodes and v is want and _same_node(v, mv)
       ok_parent = ok_parent and (par is (None if not mp else _lookup(root, mp[:-1])))
-      ok_query = ok_query and _out(k.query, root)[1:] == (v,) and _out(KP.parse(str(k)).query, root)[1:] == (v,) \
-          and k.query(root) is v
+      q1, q2 = _out(k.query, root), _out(lambda: KP.parse(str(k)).query(root))
+      ok_query = ok_query and q1[0] == 'ok' and q1[1] is v and q2[0] == 'ok' and q2[1] is v
       if isinstance(v, pg.Symbolic) and isinstance(root, pg.Symbolic):
         ok_sympath = ok_sympath and _tk(v.sym_path.keys) == _tk(mp)
     chk(f'pg.traverse.reports-the-node/{flavour}', key, ok_nodes, 'a visited value is not the node at its path',
@@ -622,7 +643,7 @@ def drv_traverse(tier, seed):
         lambda: w0 + 'pg.traverse(root, lambda k, v, p: (None if not isinstance(v, pg.Symbolic) or v.sym_path == k else 1 / 0, pg.TraverseAction.ENTER)[1])')
     # root_path / parent arguments.
     pre2 = []
-    g = _out(pg.traverse, root, lambda k, v, p: (pre2.append((k, p)), ENTER)[1], None, KP(['r', 3]), 'PARENT')
+    g = _out(pg.traverse, root, lambda k, v, p: (pre2.append((k, p)), None)[1], None, KP(['r', 3]), 'PARENT')   # None counts as ENTER
     chk(f'pg.traverse.root_path/{flavour}', key, g == ('ok', True) and [_tk(k.keys) for k, _ in pre2] == [_tk(('r', 3) + p) for p, _, _ in mpre]
         and pre2[0][1] == 'PARENT', 'root_path/parent not honoured',
         lambda: w0 + 'log = []\npg.traverse(root, lambda k, v, p: (log.append(k.keys), pg.TraverseAction.ENTER)[1], root_path=pg.KeyPath(["r", 3]))\n' +
@@ -707,6 +728,13 @@ def drv_traverse(tier, seed):
           okr = okr and len(list(_walk_real(clone))) == len(mpre)
         chk(f'rebind-by-function.updates-exactly-the-int-leaves/{flavour}', key, okr, lambda: f'{g[1] if g[0] == "exc" else "wrong nodes after rebind"}',
             lambda: w0 + f'root.rebind(lambda k, v: v + 100 if type(v) is int else v)\nassert [pg.KeyPath(p).query(root) for p in {[list(p) for p in ints]!r}] == {[_lookup(root, p) + 100 for p in ints]!r}')
+
+  for expr, flavour in vals:
+    try:
+      one(expr, flavour)
+    except Exception as e:  # pylint: disable=broad-except
+      rec.case(f'unexpected-exception/{flavour}', expr, False, f'{type(e).__name__}: {e}', PRE + f'root = {expr}\nraise AssertionError({str(e)!r})')
+
   return rec.result()
 
 
@@ -788,7 +816,7 @@ def drv_flatten(tier, seed):
   rec = Recorder('C10', 'utils.flatten / utils.canonicalize are inverse; flatten keys are the leaf paths',
                  scope=f'{len(vals)} nested dict/list values: exhaustive depth<=1 over {len(FKEYS)} keys x {len(FLEAVES)} leaves, chains to depth 3, seeded random depth<=5')
   chk = _Chk(rec)
-  for expr in vals:
+  def one(expr):
     v = eval(expr)  # pylint: disable=eval-used
     cls = 'root-list' if isinstance(v, list) else 'root-dict'
     cx = _has_complex_key(v)
@@ -822,6 +850,13 @@ def drv_flatten(tier, seed):
     # flatten does not modify its argument.
     chk(f'flatten.argument-unchanged/{cls}', expr, _deep_same(v, eval(expr)), 'flatten/canonicalize modified the input',  # pylint: disable=eval-used
         lambda: w0 + f'pg.utils.flatten(v, False); assert v == {expr}')
+
+  for expr in vals:
+    try:
+      one(expr)
+    except Exception as e:  # pylint: disable=broad-except
+      rec.case('unexpected-exception', expr, False, f'{type(e).__name__}: {e}', f'import pyglove as pg\nv = {expr}\nassert pg.utils.canonicalize(pg.utils.flatten(v, False)) == v')
+
   return rec.result()
 
 
